@@ -268,6 +268,11 @@ func generateHarnesses(repo, prop, dir string) error {
 		b.WriteString("\t\t}\n")
 	}
 	b.WriteString("\t}\n\treturn false\n}\n\n")
+	b.WriteString("// vpPtrOf returns the pointer form of a vocabulary struct held by value (decoders hand out pointer forms).\nfunc vpPtrOf(a Item) Item {\n\tswitch x := a.(type) {\n")
+	for _, s := range vocab {
+		fmt.Fprintf(&b, "\tcase %s:\n\t\tc := x\n\t\treturn &c\n", s.Name)
+	}
+	b.WriteString("\t}\n\treturn a\n}\n\n")
 	b.WriteString("// vpCloneItem makes a shallow copy of a vocabulary struct behind a pointer.\nfunc vpCloneItem(a Item) Item {\n\tswitch x := a.(type) {\n")
 	for _, s := range vocab {
 		fmt.Fprintf(&b, "\tcase *%s:\n\t\tc := *x\n\t\treturn &c\n", s.Name)
